@@ -209,10 +209,22 @@ func storeSlashingProtection(ctx context.Context, protection *SlashingProtection
 		}
 		var key [48]byte
 		copy(key[:], bytes)
-		keyProtection := &rules.SlashingProtection{
-			HighestAttestedSourceEpoch: -1,
-			HighestAttestedTargetEpoch: -1,
-			HighestProposedSlot:        -1,
+		// Start from what has already been gathered for this key from earlier entries in the file, or
+		// failing that from what is in the database, so that the result is the highest value of each
+		// field across the database and every entry for the key: importing must never lower a value.
+		keyProtection, exists := protectionMap[key]
+		if !exists {
+			keyProtection = &rules.SlashingProtection{
+				HighestAttestedSourceEpoch: -1,
+				HighestAttestedTargetEpoch: -1,
+				HighestProposedSlot:        -1,
+			}
+			if existingKeyProtection, exists := existingProtection[key]; exists {
+				keyProtection.HighestAttestedSourceEpoch = existingKeyProtection.HighestAttestedSourceEpoch
+				keyProtection.HighestAttestedTargetEpoch = existingKeyProtection.HighestAttestedTargetEpoch
+				keyProtection.HighestProposedSlot = existingKeyProtection.HighestProposedSlot
+			}
+			protectionMap[key] = keyProtection
 		}
 		// We take the absolute highest source epoch and target epoch across all provided attestations.
 		for _, attestation := range protection.Data[i].SignedAttestations {
@@ -240,20 +252,6 @@ func storeSlashingProtection(ctx context.Context, protection *SlashingProtection
 			if slot > keyProtection.HighestProposedSlot {
 				keyProtection.HighestProposedSlot = slot
 			}
-		}
-
-		existingKeyProtection, exists := existingProtection[key]
-		if exists {
-			// We already have an entry; only add this if it contains newer data.
-			if existingKeyProtection.HighestAttestedSourceEpoch <= keyProtection.HighestAttestedSourceEpoch &&
-				existingKeyProtection.HighestAttestedTargetEpoch <= keyProtection.HighestAttestedTargetEpoch &&
-				existingKeyProtection.HighestProposedSlot <= keyProtection.HighestProposedSlot {
-				protectionMap[key] = keyProtection
-			} else {
-				fmt.Fprintf(os.Stdout, "Existing entry for public key %#x contains newer data; not importing\n", key)
-			}
-		} else {
-			protectionMap[key] = keyProtection
 		}
 	}
 	if err := rulesSvc.ImportSlashingProtection(ctx, protectionMap); err != nil {
